@@ -74,7 +74,9 @@ Definition tick (tagged : bool) (s : kst) (held : list Z) (p : pc) : kst * list 
       then (mkK n (fupd (knext s) ke LIVE) (fupd (kdtor s) ke d) (bump tagged s ke), ke :: held, Done ke)
       else (s, held, AHead d)
   | DCheck k =>
-      if knext s k =? LIVE then (s, remove1 k held, DHead k (kdtor s k))
+      (* [f = ke->destructor; ke->destructor = 0;] (commit 7f58d46): a deleted key has no destructor *)
+      if knext s k =? LIVE
+      then (mkK (kfree s) (knext s) (fupd (kdtor s) k 0) (kgen s), remove1 k held, DHead k (kdtor s k))
       else (s, held, Done ERR)
   | DHead k f =>
       let h := kfree s in
@@ -130,13 +132,13 @@ Fixpoint seq_hist (s : kst) (h : list Z) (os : list op) : option (kst * list Z *
 
 (** closed form of [n >= 1] create/delete cycles of the index at the head of the
     free list ([Create d; Delete k] repeated; the list is LIFO, so every creation
-    returns the same index [k = kfree s]): only the destructor and the generation
-    of that cell change.  Proved equal (field by field) to running the [2 n]
+    returns the same index [k = kfree s]): only the destructor (cleared by the last
+    delete) and the generation of that cell change.  Proved equal (field by field) to running the [2 n]
     calls in Tls/TlsKeysProofs.v ([cycles_closed_form]); the driver uses it for the
     long histories (tens of thousands of cycles) of the correspondence runs. *)
 Definition cycle_n (s : kst) (d n : Z) : kst :=
   let k := kfree s in
-  mkK k (knext s) (fupd (kdtor s) k d)
+  mkK k (knext s) (fupd (kdtor s) k 0)
       (if tagged then fupd (kgen s) k ((kgen s k + n) mod GEN_MOD) else kgen s).
 
 Fixpoint cyc (k d : Z) (n : nat) : list op :=
